@@ -300,7 +300,15 @@ class Ctx:
         self.tier = tier
         self.seed = seed
         self.t0 = time.time()
-        self.workdir = os.path.join(CACHE, "work", pid)
+        # one private work directory per run (checks may run concurrently, e.g. against VERIF_REPO worktrees);
+        # directories of runs whose process has ended are removed
+        wroot = os.path.join(CACHE, "work")
+        os.makedirs(wroot, exist_ok=True)
+        for d in os.listdir(wroot):
+            m = re.match(r"^%s\.(\d+)$" % re.escape(pid), d)
+            if (m and not os.path.exists("/proc/%s" % m.group(1))) or d == pid:
+                shutil.rmtree(os.path.join(wroot, d), ignore_errors=True)
+        self.workdir = os.path.join(wroot, "%s.%d" % (pid, os.getpid()))
         shutil.rmtree(self.workdir, ignore_errors=True)
         os.makedirs(self.workdir, exist_ok=True)
         os.makedirs(os.path.join(ROOT, "replays"), exist_ok=True)
@@ -398,7 +406,10 @@ class Ctx:
 
     # ---- outcome
     def replay_path(self, tag):
-        return os.path.join("replays", "%s-%s.json" % (self.pid, tag))
+        # runs against another checkout (VERIF_REPO) keep their replays and evidence apart
+        d = "replays" if REPO == "/repo" else os.path.join("replays", "alt-" + hashlib.sha1(REPO.encode()).hexdigest()[:10])
+        os.makedirs(os.path.join(ROOT, d), exist_ok=True)
+        return os.path.join(d, "%s-%s.json" % (self.pid, tag))
 
     def violation(self, key, what, replay_obj, no_input=False):
         """Record a violation. `key` identifies it for known_findings matching."""
@@ -448,7 +459,9 @@ class Ctx:
             "known_findings_hit": [k for k, _ in self.known_hits],
             "repo": REPO,
         }
-        with open(os.path.join(ROOT, "evidence", self.pid + ".json"), "w") as f:
+        evdir = os.path.join(ROOT, "evidence") if REPO == "/repo" else os.path.join(CACHE, "alt-evidence")
+        os.makedirs(evdir, exist_ok=True)
+        with open(os.path.join(evdir, self.pid + ".json"), "w") as f:
             json.dump(ev, f, indent=1, default=str)
         for key, what in self.known_hits:
             log("KNOWN-FINDING: property=%s %s" % (self.pid, what))
